@@ -676,6 +676,8 @@ def _case(case, mon, T, scn, tracer, base, problems):
     if n == 0:
         mon.trivial()
         return
+    if scn.refused_at is None and all(_has_epoch(f) for f in scn.pass_fmt if f is not None):
+        _csv_inside_state_dir(mon, T, scn, base)
     final_tree = TR.read_tree(root) if scn.refused_at is None else recs[n]["tree"]
     final_csv = recs[n]["tree"].get(CSV, b"")
     # reference: what a fresh controller reads from the uninterrupted history
@@ -794,6 +796,37 @@ def _case(case, mon, T, scn, tracer, base, problems):
             v.details = dict(v.details, second_fault=True)
             problems.append(v)
             mon.stat("states_failing")
+
+
+def _csv_inside_state_dir(mon, T, scn, base):
+    """The history file kept INSIDE the checkpoint directory, under another spelling of that directory: after every
+    completed update a freshly constructed controller must read back every epoch recorded so far."""
+    case = scn.case
+    root = os.path.join(base, "inside")
+    sdir = os.path.join(root, SDIR)
+    os.makedirs(sdir)
+    spelled = os.path.join(root, ".", SDIR, "..", SDIR, CSV)
+
+    def mk():
+        params = G.make_params(T, case["cfg"], keep2=case["keep2"], model_fmt=scn.pass_fmt[0],
+                               optim_fmt=scn.pass_fmt[1])
+        c = T.TrainingStateController(params, spelled, sdir, warn=False)
+        for name, typ, fmt, vals in case["entries"]:
+            c.add_entry(name, G.TYPES[typ], fmt)
+        return c
+
+    ctrl = mk()
+    model, opt = G.make_model_opt(case["cfg"], case["groups"])
+    ctrl.load_model_and_optimizer_for_epoch(model, opt)
+    for k in range(1, scn.n + 1):
+        _update(mon, scn, ctrl, model, opt, k, "update_for_epoch(history file inside the state directory)")
+        fresh = mk()
+        last = fresh.get_last_epoch()
+        vals = [fresh.get_info(e)["val_met"] for e in range(1, last + 1)]
+        mon.check(last == k and vals == list(case["val"][:k]), "history-inside-state-dir", update=k,
+                  observed_last_epoch=last, observed_val=vals, expected_val=list(case["val"][:k]),
+                  csv_path=spelled, state_dir=sdir)
+    mon.cls("history_file_inside_state_dir")
 
 
 def post(agg, tier):
